@@ -586,6 +586,10 @@ func childMain() {
 		fmt.Fprintln(os.Stderr, "HARNESS-ERROR cannot read scenario:", err)
 		os.Exit(2)
 	}
+	if sc.Cold != nil {
+		childCold(*sc.Cold, out)
+		return
+	}
 	r := &rec{start: time.Now()}
 	// pick a free loopback port, start the real server on it
 	var addr string
